@@ -705,7 +705,7 @@ class Streamix(Stream):
         data = zero
         for snd in self._playing:
           try:
-            data += next(snd)
+            data = data + next(snd) # Not "+=": zero might be mutable
           except StopIteration:
             to_remove.append(snd)
 
